@@ -881,6 +881,24 @@ def run(ses, rep):
 
 def replay(path):
     d = json.load(open(path))
+    r_ = d.get("replay", {})
+    if r_.get("kind") in ("semicolon", "brackets", "comment", "collapse", "prefix") and "info" in r_:      # recorded by a kernel shared with C01
+        from . import c01
+        v, rec = c01.REPLAYS[r_["kind"]](r_["info"])
+        print(v or "property holds for the recorded scenario")
+        if v:
+            print(f"VIOLATION property=C02 replay={path}")
+            return 1
+        return 0
+    if "tree" in r_ or "entry" in r_:       # recorded by C05's composer (parentheses)
+        from . import c05
+        tup = lambda x: tuple(tup(y) for y in x) if isinstance(x, list) else x
+        v, rec = c05.replay_tree(tup(r_["tree"]), r_["entry"], r_["fs"])
+        print(v or "property holds for the recorded tree on the current build")
+        if v:
+            print(f"VIOLATION property=C02 replay={path}")
+            return 1
+        return 0
     if d.get("replay", {}).get("replay_kind") == "type-parens":
         v, rec = replay_type_parens({})
         print(v or "type parentheses: kept where needed")
